@@ -45,7 +45,33 @@ PARAMS = {"kaiser": {"beta": 5.0}, "blackman": {"alpha": 0.2}, "cauchy": {"alpha
 # ---------------------------------------------------------------------------
 class LazyVec(object):
     """a vector of symbolic length represented by its generic element"""
-    __array_ufunc__ = None
+
+    def __array_ufunc__(self, ufunc, method, *inputs, **kw):
+        # numpy ufuncs applied to the generic element (np.abs(x), np.cos(x), np.multiply(a, x) ...)
+        if method != '__call__' or kw.get('out') is not None:
+            return NotImplemented
+        from symx import stubs_math
+        els = [x.el if isinstance(x, LazyVec) else x for x in inputs]
+        name = ufunc.__name__
+        if name in ('absolute', 'fabs'):
+            return LazyVec(abs(els[0]))
+        if name == 'negative':
+            return LazyVec(-els[0])
+        if name == 'positive':
+            return LazyVec(els[0])
+        if name == 'square':
+            return LazyVec(els[0] * els[0])
+        if name in ('cos', 'sin', 'exp'):
+            return LazyVec(stubs_math.apply(name, as_sym(els[0])))
+        if name in ('add', 'subtract', 'multiply', 'true_divide', 'divide', 'power'):
+            a, b = els
+            if not isinstance(a, Sym) and not isinstance(b, Sym):
+                return NotImplemented
+            if name == 'power':
+                return LazyVec(as_sym(a) ** b)
+            a, b = as_sym(a), as_sym(b)
+            return LazyVec({'add': a + b, 'subtract': a - b, 'multiply': a * b}.get(name) if name in ('add', 'subtract', 'multiply') else a / b)
+        return NotImplemented
 
     def __init__(self, el):
         self.el = as_sym(el)
@@ -122,6 +148,12 @@ class Patches(object):
         for k, v in repl.items():
             self.saved[k] = self.W.__dict__.get(k, _MISSING)
             self.W.__dict__[k] = v
+        # the same names reached through `np.` / `numpy.` (a refactoring may switch spelling)
+        shim = _NumpyShim({k: v for k, v in repl.items() if k != 'float'})
+        for k, v in list(self.W.__dict__.items()):
+            if v is np and k not in self.saved:
+                self.saved[k] = v
+                self.W.__dict__[k] = shim
         return self
 
     def __exit__(self, *a):
@@ -133,6 +165,17 @@ class Patches(object):
 
 
 _MISSING = object()
+
+
+class _NumpyShim(object):
+    def __init__(self, repl):
+        self._repl = repl
+
+    def __getattr__(self, name):
+        r = self.__dict__['_repl']
+        if name in r:
+            return r[name]
+        return getattr(np, name)
 
 
 def generic_element(h, name, N, index, **kw):
